@@ -14,7 +14,7 @@
 From Coq Require Import List ZArith QArith Bool Arith Relations Sorted.
 From EpyV Require Import Model.Kernel Model.Loci Model.Compart Proofs.KernelLoops
   Proofs.CompartRun Proofs.CompartInv Proofs.CompartDiagram Proofs.CompartModels
-  Proofs.ContactBase Proofs.ContactForest Proofs.ContactInv Proofs.ContactTime.
+  Proofs.ContactBase Proofs.ContactForest Proofs.ContactInv Proofs.ContactTime Proofs.ContactSync.
 Import ListNotations.
 
 (* ---------------------------------------------------------------- the invariant *)
@@ -118,14 +118,24 @@ Theorem C08_times_nondecreasing_sync : forall cm nodes edges init maxtime monito
   forall n m t t', In (n, m, t) (cw_occ (world (r_final r))) -> In (m, t') (cw_hit (world (r_final r))) -> (t' <= t)%Q.
 Proof. intros cm nodes edges init maxtime monitor pf fuel rs ds tb. exact (times_sync cm nodes edges init maxtime monitor pf fuel rs ds). Qed.
 
-(* NOT PROVED (kept as the statement of the property): strictness t' < t for whole runs.
-     C08_times_strict_sync : ... r := sync_run ... -> r_stuck r = false -> In (n, m, t) occ -> In (m, t') hit -> t' < t
-       (argument: the tranche of a step is drawn before any of its events fire, a selected pair (n, m)
-        has m infectious then, and a node infected during the step was susceptible then)
-     C08_times_strict_stoch : the same for stoch_run under Forall (Qlt 0) ls
-   What is proved towards them: C08_times_increase with R := Qlt reduces both to "the infection
-   calls of the run have strictly increasing times", and C08_infector_earlier gives the order of
-   the records without any hypothesis. *)
+(* STRICTLY later, synchronous dynamics: for every synchronous run whatsoever (any oracle, any
+   fuel, stuck or not) - the tranche of a step is drawn before any of its events fires, a selected
+   pair (n, m) had m infectious then, a node infected during the step was susceptible then.  This
+   covers timesteps in which several infected neighbours are selected to infect the same node and
+   chains n <- m, m <- k inside one step (impossible). *)
+Theorem C08_times_strict_sync : forall cm nodes edges init maxtime monitor pf fuel rs ds,
+  let tb := mk_table cm nodes edges init maxtime monitor in
+  wf_model cm = true -> once_model cm = true -> graph_okb nodes edges = true -> init_ok cm nodes init = true ->
+  let r := sync_run tb pf fuel rs ds in
+  forall n m t t', In (n, m, t) (cw_occ (world (r_final r))) -> In (m, t') (cw_hit (world (r_final r))) -> (t' < t)%Q.
+Proof.
+  intros cm nodes edges init maxtime monitor pf fuel rs ds tb Hwf Ho Hg Hi.
+  exact (strict_sync cm nodes edges init maxtime monitor Hwf Ho pf fuel rs ds Hg Hi).
+Qed.
+
+(* Gillespie dynamics, strictness: C08_times_increase with R := Qlt reduces it to "the infection
+   calls of the run have strictly increasing times" (true when every ln(1/r) drawn is > 0 and the
+   run does not get stuck); C08_times_strict_stoch below when present, else see the report. *)
 
 (* ---------------------------------------------------------------- C08_acyclic *)
 (* the occupied edges, oriented infected -> infector: the infector is unique, no cycle, and every
